@@ -13,6 +13,17 @@ from . import rustscan as rs
 ENV = dict(os.environ, CARGO_NET_OFFLINE='true')
 
 
+def _big_stack():
+    # CBMC recurses deeply while converting large formulas; with the default 8 MB stack it dies with
+    # SIGSEGV, which Kani reports as 'CBMC appears to have run out of memory'
+    import resource
+    soft, hard = resource.getrlimit(resource.RLIMIT_STACK)
+    try:
+        resource.setrlimit(resource.RLIMIT_STACK, (hard, hard))
+    except Exception:
+        pass
+
+
 class KaniSetupError(Exception):
     pass
 
@@ -178,7 +189,7 @@ def run_group(wsdir, pkg, features, no_default, kani_args, harnesses, jobs, time
     t0 = time.time()
     hard = timeout_s * 2 + 900
     try:
-        p = subprocess.run(cmd, cwd=wsdir, env=ENV, capture_output=True, text=True, timeout=hard)
+        p = subprocess.run(cmd, cwd=wsdir, env=ENV, capture_output=True, text=True, timeout=hard, preexec_fn=_big_stack)
         text = p.stdout + '\n' + p.stderr
     except subprocess.TimeoutExpired as e:
         text = (e.stdout or b'').decode('utf8', 'replace') if isinstance(e.stdout, bytes) else (e.stdout or '')
@@ -203,7 +214,7 @@ def playback_print(wsdir, pkg, features, no_default, kani_args, harness, timeout
     cmd += list(kani_args)
     cmd += ['-Z', 'concrete-playback', '--concrete-playback=print', '--exact', '--harness', harness, '--output-format=terse']
     try:
-        p = subprocess.run(cmd, cwd=wsdir, env=ENV, capture_output=True, text=True, timeout=timeout_s * 2 + 600)
+        p = subprocess.run(cmd, cwd=wsdir, env=ENV, capture_output=True, text=True, timeout=timeout_s * 2 + 600, preexec_fn=_big_stack)
     except subprocess.TimeoutExpired:
         return None
     text = p.stdout + '\n' + p.stderr
